@@ -291,7 +291,16 @@ impl Model for TreeModel {
         Some(s.wrapping_mul(2).wrapping_add(1 + a as u64))
     }
     fn properties(&self) -> Vec<Property<Self>> {
-        vec![Property::always("keepalive", |_, _| true)]
+        // "never" is an eventually-property that no state satisfies: a counterexample is genuine
+        // only if it ends in a state without successors (the leaves of the tree; the chain has
+        // none). An interrupted run must not report the prefix it happened to be working on.
+        vec![Property::always("keepalive", |_, _| true), Property::eventually("never", |_, _| false)]
+    }
+}
+
+impl TreeModel {
+    pub fn is_terminal(&self, s: u64) -> bool {
+        !self.chain && s >= (1u64 << 40) - 1
     }
 }
 
@@ -313,31 +322,43 @@ pub fn timeout_worker(args: &[String]) -> i32 {
         chain,
     };
     let (late, total) = (model.late.clone(), model.total.clone());
+    let model_for_paths = model.clone();
     let mut b = model.checker().threads(threads).timeout(Duration::from_millis(timeout_ms));
     if depth > 0 {
         b = b.target_max_depth(depth);
     }
     let joined = Arc::new(AtomicBool::new(false));
     let joined_at = Arc::new(Mutex::new(None::<f64>));
-    let (j2, ja2) = (joined.clone(), joined_at.clone());
+    let discovery = Arc::new(Mutex::new(serde_json::Value::Null));
+    let (j2, ja2, d2) = (joined.clone(), joined_at.clone(), discovery.clone());
     let strategy_owned = strategy.to_string();
+    let model2 = model_for_paths;
     std::thread::spawn(move || {
-        match strategy_owned.as_str() {
-            "bfs" => {
-                b.spawn_bfs().join();
+        // what does the finished checker report for the eventually-property "never"?
+        fn describe<C: Checker<TreeModel>>(c: &C, m: &TreeModel) -> serde_json::Value {
+            match crate::ctx::guarded(|| c.discovery("never")) {
+                Err(msg) => json!({"panic": msg}),
+                Ok(None) => serde_json::Value::Null,
+                Ok(Some(path)) => {
+                    let states: Vec<u64> = path.into_states();
+                    let last = *states.last().unwrap();
+                    let real = states[0] == 0 && states.windows(2).all(|w| m.next_states(&w[0]).contains(&w[1]));
+                    let closes_cycle = states[..states.len() - 1].contains(&last);
+                    json!({"len": states.len(), "last": last, "is_a_real_path": real, "last_is_terminal": m.is_terminal(last), "closes_cycle": closes_cycle})
+                }
             }
-            "dfs" => {
-                b.spawn_dfs().join();
-            }
+        }
+        let d = match strategy_owned.as_str() {
+            "bfs" => describe(&b.spawn_bfs().join(), &model2),
+            "dfs" => describe(&b.spawn_dfs().join(), &model2),
             "on_demand" => {
                 let c = b.spawn_on_demand();
                 c.run_to_completion();
-                c.join();
+                describe(&c.join(), &model2)
             }
-            _ => {
-                b.spawn_simulation(7, stateright::UniformChooser).join();
-            }
-        }
+            _ => describe(&b.spawn_simulation(7, stateright::UniformChooser).join(), &model2),
+        };
+        *d2.lock().unwrap() = d;
         *ja2.lock().unwrap() = Some(t0.elapsed().as_secs_f64());
         j2.store(true, Ordering::SeqCst);
     });
@@ -347,7 +368,7 @@ pub fn timeout_worker(args: &[String]) -> i32 {
     }
     println!(
         "{}",
-        json!({"joined": joined.load(Ordering::SeqCst), "joined_at_s": *joined_at.lock().unwrap(),
+        json!({"joined": joined.load(Ordering::SeqCst), "joined_at_s": *joined_at.lock().unwrap(), "never_discovery": *discovery.lock().unwrap(),
                "late_evaluations": late.load(Ordering::Relaxed), "total_evaluations": total.load(Ordering::Relaxed),
                "observed_s": t0.elapsed().as_secs_f64()})
     );
@@ -370,6 +391,9 @@ fn timeout_expiry(ctx: &Ctx) {
     scenarios.push(("dfs".into(), 3, 30, 0, true));
     scenarios.push(("on_demand".into(), 1, 30, 0, true));
     scenarios.push(("on_demand".into(), 2, 30, 0, true));
+    // one endless simulation trace
+    scenarios.push(("simulation".into(), 1, 30, 0, true));
+    scenarios.push(("simulation".into(), 3, 30, 0, true));
     if !ctx.quick() {
         for s in ["bfs", "dfs", "on_demand"] {
             scenarios.push((s.to_string(), 8, 20, 0, false));
@@ -392,11 +416,20 @@ fn timeout_expiry(ctx: &Ctx) {
             case.inconclusive(&format!("worker produced no result (killed={} code={:?})", out.killed, out.exit_code));
             return;
         };
+        let shape = if chain { "/chain-model" } else { "" };
+        let tclass = if threads == 1 { "single-thread" } else { "multi-thread" };
         // the scenario only says something if the run outlived its timeout: a model that is
         // exhausted earlier (harness defect) must not count as an observation
+        // The models cannot be exhausted within the timeout (2^40 / 2^64 states at >= 20 us per
+        // state) and no finish condition or target is set, so the only reason to stop is the
+        // timeout: a run that returns from join clearly *before* it expired stopped without a
+        // reason ("an unexpired timeout changes neither results nor progress"). The harness
+        // clock starts before the checker's, so measured time can only be longer.
         if v["joined"].as_bool() == Some(true) && v["joined_at_s"].as_f64().unwrap_or(f64::MAX) < timeout_ms as f64 / 1000.0 * 0.9 {
-            case.inconclusive(&format!("{} t={}: the run ended {:.2}s after start, before its timeout - model exhausted (harness defect)",
-                strategy, threads, v["joined_at_s"].as_f64().unwrap_or(0.0)));
+            case.violation(
+                &format!("C12/timeout/{}/{}{}/stopped-before-the-timeout-expired", strategy, tclass, shape),
+                json!({"scenario": args, "result": v, "timeout_ms": timeout_ms}),
+            );
             return;
         }
         case.add("timeout_scenarios_observed", 1);
@@ -404,8 +437,6 @@ fn timeout_expiry(ctx: &Ctx) {
         let late = v["late_evaluations"].as_u64().unwrap_or(0);
         let joined = v["joined"].as_bool().unwrap_or(false);
         let bound = 2 * 1500 * threads as u64;
-        let shape = if chain { "/chain-model" } else { "" };
-        let tclass = if threads == 1 { "single-thread" } else { "multi-thread" };
         if late > bound {
             case.violation(
                 &format!("C12/timeout/{}/{}{}/keeps-evaluating-after-expiry", strategy, tclass, shape),
